@@ -91,10 +91,11 @@ fn listing(p: &Path) -> Vec<String> {
 fn b(x: bool) -> char { if x { '1' } else { '0' } }
 
 fn probe<C: ResourceChecker<PathBuf>>(tag: &str, c: &C, p: &PathBuf, s1: &St, s2: &St, out: &mut impl std::io::Write)
-  where C::Stamp: PartialEq, C::Error: std::fmt::Debug {
+  where C::Stamp: PartialEq + std::fmt::Debug, C::Error: std::fmt::Debug {
   let mut pie: Pie<()> = Pie::default();
   set_state(p, s1);
   let st_path = c.stamp(p, pie.resource_state_mut::<PathBuf>()).unwrap();
+  if std::env::args().any(|a| a == "--stamps") { writeln!(out, "s {} {:?}", tag, st_path).unwrap(); }   // C16: the stamp itself, for the replay at another time
   let mut reader = p.read(pie.resource_state_mut::<PathBuf>()).unwrap();
   let st_reader = c.stamp_reader(p, &mut reader).unwrap();
   // the task reads from the very reader that was stamped: it must see the full content
